@@ -26,6 +26,8 @@ def run(chk):
     e3.run_V1(chk)
     e3.run_I4(chk)
 
+    from . import e10
+    e10.run_U(chk, ("yastn.tensor._merging", "yastn.tensor._contractions", "yastn.tensor._algebra", "yastn.tensor._legs", "yastn.initialize"), floor1=5, floor2=1)
 
 MUTANTS = [
     ("verdict overwritten per pair", "yastn/tensor/_algebra.py", "        mask_needed_ab, _ = _unpack_trans_test_axes_pair(a, b, sgn=1)\n        mask_needed = mask_needed or mask_needed_ab", "        mask_needed, _ = _unpack_trans_test_axes_pair(a, b, sgn=1)", "F2"),
